@@ -1878,6 +1878,7 @@ func (s *ServiceNode) IsSameService(other *ServiceNode) bool {
 		s.ServiceEnableTagOverride != other.ServiceEnableTagOverride ||
 		!reflect.DeepEqual(s.ServiceProxy, other.ServiceProxy) ||
 		!reflect.DeepEqual(s.ServiceConnect, other.ServiceConnect) ||
+		!reflect.DeepEqual(s.ServiceLocality, other.ServiceLocality) ||
 		!s.IsSame(&other.EnterpriseMeta) {
 		return false
 	}
